@@ -27,10 +27,10 @@ LEVEL_TEXT = ('Coq theorems over an executable Gallina model of the state tracki
               'see coq/C10/Props.v; the model is tied to the source by regenerated tables (mode-argument letters, sigils, mode-letter sets, '
               '_nickSetters, handler inventory, hostmask regex shape) and by a differential run after every message against the real Irc object.')
 LEVEL_NOTE = ('Trusted: Coq kernel, gen_tables.py, extraction + OCaml driver, the Python harness, the reference server as specification. '
-              'The trace-level simulation theorem (induction over histories of any length with the lookup-level relation Inv, Inv => agree) is proved '
-              'for the steps CONNECT, TOPIC, KICK (any victims), QUIT, NICK (incl. case-only and the bot\'s own), MODE (all accepted letters), CHGHOST, '
-              'WHO refresh, reconnect, PART and JOIN of other users (any channel list), and the bot\'s own JOIN (any target list) into channels nobody is on; '
-              'still outside: the bot joining a populated channel, NAMES refresh -- those rest on the per-handler theorems plus the differential run.')
+              'The trace-level simulation theorem C10_simulation_trace is proved for ALL histories of dom (any length; induction with the lookup-level '
+              'relation Inv and the server invariant skeys, one step lemma per action kind incl. the full join burst for populated channels, NAMES/WHO '
+              'refresh, multi-target JOIN/PART/KICK, NICK, QUIT, MODE, reconnect); outside dom (non-canonical int mode parameters, finding F10c; '
+              'NAMES without multi-prefix) only the differential run applies.  The join burst is delivered atomically and created is one constant.')
 TECHNIQUE = 'Coq proof (induction over lists/states) + regenerated tables + extracted reference server and bot model run beside the real Irc object'
 EXPLANATION = 'C10: bot model coq/C10/Bot.v, reference server coq/C10/Spec.v; theorems in coq/C10/Props.v'
 
